@@ -3,7 +3,8 @@
 S=$1; SEED=${2:-1}; N=${3:-200}; TIER=${4:-quick}
 D=$(mktemp -d /var/tmp/kvcmp.XXXXXX)
 R=$(cd "$(dirname "$0")/.." && pwd)
-H=$R/harness/target/debug/kv-harness
+# KV_HBIN=<path> uses another harness binary (e.g. the one ./check builds for KV_REPO under /var/tmp/kv-alt)
+H=${KV_HBIN:-$R/harness/target/debug/kv-harness}
 T=$R/lean/.lake/build/bin/kira_twin
 $H gen $S $SEED $N $TIER | grep -v '^#' > $D/ops.txt
 # the twin runs first; `twin_first` suites read its trace through KV_TWIN_TRACE (others ignore it)
